@@ -120,14 +120,15 @@ Section P.
   Theorem partition_exact (r : results) ins outs consts g :
     partition r ins outs consts = Ok g ->
     Permutation r (g_inputs g ++ g_outputs g ++ g_constants g ++ g_intermediates g) /\
-    map fst (g_inputs g) = ins /\ map fst (g_outputs g) = dedup [] outs /\
-    map fst (g_constants g) = consts.
+    map fst (g_inputs g) = ins /\ map fst (g_outputs g) = dedup ins outs /\
+    map fst (g_constants g) = dedup (ins ++ outs) consts.
   Proof.
     unfold partition. intros H.
     destruct (pop_all r ins) as [[a r1]|] eqn:E1; cbn [bind fst snd] in H; [|discriminate].
     rewrite pop_all_skip_eq in H.
-    destruct (pop_all r1 (dedup [] outs)) as [[b r2]|] eqn:E2; cbn [bind fst snd] in H; [|discriminate].
-    destruct (pop_all r2 consts) as [[c r3]|] eqn:E3; cbn [bind fst snd] in H; [|discriminate].
+    destruct (pop_all r1 (dedup ins outs)) as [[b r2]|] eqn:E2; cbn [bind fst snd] in H; [|discriminate].
+    rewrite pop_all_skip_eq in H.
+    destruct (pop_all r2 (dedup (ins ++ outs) consts)) as [[c r3]|] eqn:E3; cbn [bind fst snd] in H; [|discriminate].
     inversion H; subst; clear H. cbn.
     destruct (pop_all_spec _ _ _ _ E1) as (P1 & M1 & _).
     destruct (pop_all_spec _ _ _ _ E2) as (P2 & M2 & _).
